@@ -93,6 +93,14 @@ func c02ops() []c02op {
 		{"catch-under-the-name-of-a-let-binding", []int{mSeq | mM | mS}, same, func(a []string, c int) string {
 			return f("(let [s %s g (keepfn! (fn [] s) s)] (try (throw %d) (catch s (keep! s))) (try (throw {:code %d}) (catch s 0)) (g) s)", a[0], c, c)
 		}, nil},
+		// code held as data (quoted, or built with list) and then evaluated, with macro calls in operand
+		// position: evaluating it leaves the data as it was
+		{"eval-quoted-code-with-macro-calls", []int{mSeq}, toL, func(a []string, c int) string {
+			return f("(let [code (quote (list %d (cond false 1 true 2) (-> 1 (+ 2)) (or nil 3)))] (keep! code) (keep! (first (rest (rest code)))) (eval code) (eval code) (concat code %s))", c, a[0])
+		}, nil},
+		{"eval-built-code-with-macro-calls", []int{mSeq}, toL, func(a []string, c int) string {
+			return f("(let [inner (list (quote cond) false 1 true (list (quote quote) %s)) code (list (quote list) %d inner (list (quote and) 1 inner))] (keep! inner) (keep! code) (eval code) (eval code) code)", a[0], c)
+		}, nil},
 		// an error object made from a bound map, then marshalled / caught and looked at
 		{"marshal-error-of-map", []int{mM}, same, func(a []string, c int) string {
 			return f("(do (try (hash-map (new-error %s)) (catch e 0)) (try (throw %s) (catch e (str e))) %s)", a[0], a[0], a[0])
